@@ -71,7 +71,7 @@ PROPS = {
         "bounds": {
             "quick": "Unit::scale_to: all 31x31 ordered unit pairs symbolically (28 named units, unitless, 2 unknown), ratios within 1e-12 "
                      "of CSS Values 4; Numeric comparison: ALL finite f64 magnitudes for one representative ordered pair in the time, "
-                     "frequency and resolution groups (lengths/angles: thorough), for unitless-vs-unit over all 28 named units, and for "
+                     "frequency and resolution groups (cm/in needs 40 min and rad/deg gives no verdict in 60 min: not run), for unitless-vs-unit over all 28 named units, and for "
                      "10 representative inconvertible pairs; every ordered in-group pair at magnitude 1 (concrete inputs)",
         },
         "outside": "the exponent bookkeeping of UnitSet Mul/Div/simplify (multiplication/division), math.div, compound units; "
